@@ -16,7 +16,7 @@ EXTENDS Naturals
 \* accessors, quartile, clear_checksum, compare_with_config and the part
 \* distances, max_distance, FuzzyHashLengthEncoding::new / try_from / range.
 CoreEvents == {"gen_new", "gen_update", "gen_update_p", "gen_clone", "gen_fin", "parse", "parse_sweep", "frombytes", "store",
-               "fmt", "fmt_sweep", "cmp", "eq", "dist_matrix", "len_run", "len_code"}
+               "fmt", "fmt_sweep", "cmp", "eq", "dcall", "dist_matrix", "len_run", "len_code"}
 Unconstrained == {"stream_end", "file", "file_data", "file_err", "example", "ser", "de", "de_doc", "cmpstr"}
 
 AllocOk(kind, a) == kind \in CoreEvents => a = 0
